@@ -614,7 +614,11 @@ class Connection(ExportImport):
 
             # if we write an object, we don't want to check if it was read
             # while current.  This is a convenient choke point to do this.
-            self._readCurrent.pop(oid, None)
+            # A store into a savepoint can still be rolled back, so the
+            # dependency is only dropped when the real storage has the data
+            # (see _commit_savepoint).
+            if self._savepoint_storage is None:
+                self._readCurrent.pop(oid, None)
             if s:
                 # savepoint
                 obj._p_changed = 0  # transition from changed to up-to-date
